@@ -140,6 +140,8 @@ struct Swap2Grid : GridBase {
     ++n_cells;
     Snap a0 = snap(*A.obj), b0 = snap(*B.obj);
     const bool possible = a0.size <= IB::limit() && b0.size <= IA::limit();
+    // exceeding the N of an operand with the unchecked growing policy is outside the contract (no exception is promised)
+    if ((a0.size > IB::limit() && IB::kUnchecked) || (b0.size > IA::limit() && IA::kUnchecked)) { --n_cells; ++n_skipped; destroy(A); destroy(B); cell_end<E>("C13"); return; }
     if (possible) ++n_possible; else ++n_impossible;
     set_op(dir ? "B.swap2(A)" : "A.swap2(B)", std::string(state_class<VecA>(a0)) + (a.mode == 3 ? "(cleared)" : "") + "|" + state_class<VecB>(b0) + (b.mode == 3 ? "(cleared)" : ""),
            possible ? (a0.size == b0.size ? "eq" : a0.size < b0.size ? "lt" : "gt") : "impossible",
